@@ -25,7 +25,7 @@ def run(ctx):
             sub = dbdir / tag; sub.mkdir()
             seed = ctx.seed * 100 + i
             tr, info = zc.run_chaindrv(ctx, drv, "c10-" + tag, seed, steps, sub, shapes_list=shapes_list,
-                                       extra=["-fresh", 12 if quick else 20, "-trimdepth", 4] +
+                                       extra=["-fresh", 12 if quick else 20, "-trimdepth", 4, "-lockups"] +
                                              (["-followers", "leveldb"] if (not quick and i % 2 == 1) else []) +
                                              (["-index"] if (not quick and i % 3 == 2) else []))
             for pr in info.get("problems") or []:
@@ -56,6 +56,7 @@ def run(ctx):
                         "must equal ZoneChain.tla's replay of the winning branch and, periodically, the image of a fresh node fed only the winner")
     finally:
         shutil.rmtree(dbdir, ignore_errors=True)
+    zc.check_aborted(ctx)
     vlib.write_evidence(ctx, "model_checking", cov, [
         "blocks are produced by the node's own worker (adversarial block contents are covered by C01/C07)",
         "single-zone topology; reorg depth bounded by the scenario generator (<= ~6 blocks)",
